@@ -80,15 +80,21 @@ class Monitor(object):
         -------
 
         """
+        # Each actor's list is handed over: clear it once collected, so that
+        # collating twice in a timestep (start(runtime) does so on return)
+        # does not record the same events twice.
         if self.simulation.instrument.events:
             self.events = pd.concat([self.events,
                                     pd.DataFrame(self.simulation.instrument.events)])
+            self.simulation.instrument.events = []
 
         if self.simulation.scheduler.events:
             self.events = pd.concat([self.events,
                                     pd.DataFrame(self.simulation.scheduler.events)])
+            self.simulation.scheduler.events = []
         if self.simulation.buffer.events:
             self.events = pd.concat([self.events,
                                     pd.DataFrame(self.simulation.buffer.events)])
+            self.simulation.buffer.events = []
 
         self.events = self.events.infer_objects()
